@@ -10,7 +10,7 @@ from ..draw import composite
 RULE = ("generated directory trees (depth <= 3, names with spaces and inner dots, look-alike suffixes .cc .hh .C .H .cpp .c.bak .ch .o, none, "
         "directories whose own name ends in .c/.h, empty directories, non-C files) x generated argument lists (C files, non-C files, "
         "directories, nested directories, repeated entries, missing paths, '.', no argument) with and without --use-gitignore in a git "
-        "work tree whose .gitignore the harness can evaluate itself; oracle (model of selection): the multiset of verdict base names equals "
+        "work tree with a generated .gitignore (names, dir/, *.ext, negations, anchored paths, dir/*.c, **/name), the ignored set being asked from git by the harness itself; oracle (model of selection): the multiset of verdict base names equals "
         "the union over the arguments, each file once per mention; a non-C argument gets the rejection message and no verdict; a missing path "
         "gives exit != 0, a message naming it and no verdict line; git-ignored files are left out; exit 0 when >=1 file is selected (all "
         "files are clean); never a traceback; non-trivial = tree with >=2 levels and >=1 look-alike suffix and an argument list mixing >=2 "
@@ -79,39 +79,48 @@ def files_under(tree, dirrel):
 
 
 def gen_ignore(d, tree):
-    pats = []
+    """-> list of .gitignore lines.  The oracle for 'ignored by git' is git itself (the harness asks `git check-ignore -q`
+    for every candidate file, independently of the tool), so any pattern shape may be generated."""
+    lines = []
     files = [p for p, c in tree.items() if c is not None]
-    dirs = [p for p, c in tree.items() if c is None]
-    for _ in range(d.int(0, 3)):
-        k = d.weighted([(3, "name"), (2, "dir"), (2, "ext")])
+    dirs = [p.rstrip("/") for p, c in tree.items() if c is None]
+    esc = lambda v: v.replace(" ", "\\ ")
+    for _ in range(d.int(0, 4)):
+        k = d.weighted([(3, "name"), (2, "dir"), (3, "ext"), (2, "neg-name"), (1, "neg-ext"), (1, "path"), (1, "dirglob"), (1, "comment"), (1, "starstar")])
         if k == "name" and files:
-            f = d.choice(files)
-            pats.append(("name", os.path.basename(f)))
+            lines.append(esc(os.path.basename(d.choice(files))))
         elif k == "dir" and dirs:
-            pats.append(("dir", os.path.basename(d.choice(dirs).rstrip("/"))))
+            lines.append(esc(os.path.basename(d.choice(dirs))) + "/")
         elif k == "ext":
-            pats.append(("ext", d.choice([".c", ".h", ".bak"])))
-    return pats
+            lines.append("*" + d.choice([".c", ".h", ".bak", ".[ch]"]))
+        elif k == "neg-name" and files:
+            lines.append("!" + esc(os.path.basename(d.choice(files))))
+        elif k == "neg-ext":
+            lines.append("!*" + d.choice([".c", ".h"]))
+        elif k == "path" and files:
+            lines.append("/" + esc(d.choice(files)))
+        elif k == "dirglob" and dirs:
+            lines.append(esc(d.choice(dirs)) + "/*" + d.choice([".c", ".h"]))
+        elif k == "starstar" and files:
+            lines.append("**/" + esc(os.path.basename(d.choice(files))))
+        elif k == "comment":
+            lines.append("# *.c")
+    return lines
 
 
 def ignore_text(pats):
-    out = []
-    for k, v in pats:
-        v = v.replace(" ", "\\ ") if k != "ext" else v
-        out.append(v if k == "name" else v + "/" if k == "dir" else "*" + v)
-    return "\n".join(out) + "\n"
+    return "\n".join(pats) + "\n"
 
 
-def ignored(pats, rel):
-    parts = rel.split("/")
-    for k, v in pats:
-        if k == "name" and v in parts:
-            return True   # a bare name matches a file or a directory at any level
-        if k == "dir" and v in parts[:-1]:
-            return True
-        if k == "ext" and any(p.endswith(v) for p in parts):
-            return True
-    return False
+def git_ignored(dname, rels):
+    out = set()
+    for rel in rels:
+        rc = subprocess.run(["git", "check-ignore", "-q", "--", rel], cwd=dname, capture_output=True).returncode
+        if rc == 0:
+            out.add(rel)
+        elif rc != 1:
+            raise core.HarnessError("git check-ignore failed on %r" % rel)
+    return out
 
 
 @composite
@@ -142,12 +151,12 @@ def case(d):
         else:
             continue
         kinds.add(k)
-    use_git = d.bool(0.3)
+    use_git = d.bool(0.4)
     pats = gen_ignore(d, tree) if use_git else []
     return tree, args, use_git, pats, sorted(kinds)
 
 
-def expected(tree, args, use_git, pats):
+def expected(tree, args, use_git, ignored_set):
     """-> (Counter of verdict base names, rejected names, missing path or None)"""
     sel = []
     rejected = []
@@ -170,7 +179,7 @@ def expected(tree, args, use_git, pats):
             else:
                 return None, rejected, a
     if use_git:
-        sel = [p for p in sel if not ignored(pats, p)]
+        sel = [p for p in sel if p not in ignored_set]
     return collections.Counter(os.path.basename(p) for p in sel), rejected, None
 
 
@@ -184,8 +193,13 @@ def run_case(camp, tree, args, use_git, pats, kinds, cli, label="forked"):
             subprocess.run(["git", "init", "-q"], cwd=dname, capture_output=True)
             with open(os.path.join(dname, ".gitignore"), "w") as f:
                 f.write(ignore_text(pats))
+        ign = git_ignored(dname, [p for p, c in tree.items() if c is not None and is_c(os.path.basename(p))]) if use_git else set()
         res = cli(list(args) + ["--no-colors"] + (["--use-gitignore"] if use_git else []), dname)
-    exp, rejected, missing = expected(tree, args, use_git, pats)
+    exp, rejected, missing = expected(tree, args, use_git, ign)
+    if use_git and ign:
+        camp.count("cases-with-ignored-C-files")
+    if use_git and any(l.startswith("!") for l in pats):
+        camp.count("gitignore-with-negation")
     depth = max(p.count("/") for p in tree) if tree else 0
     lookalike = any(os.path.basename(p).endswith((".cc", ".hh", ".C", ".H", ".c.bak", ".ch", ".c ", ".hc")) for p, c in tree.items() if c is not None)
     camp.case(core.sha([sorted(tree), args, use_git, pats, label]), depth >= 1 and lookalike and len(kinds) >= 2)
@@ -259,7 +273,7 @@ def replay(pid, case):
             tree[p] = CLEAN_H % (g, g)
         else:
             tree[p] = CLEAN_C
-    run_case(camp, tree, case["args"], case["use_git"], [tuple(x) for x in case["pats"]], ["replay", "x"], adapters.forked_cli)
+    run_case(camp, tree, case["args"], case["use_git"], list(case["pats"]), ["replay", "x"], adapters.forked_cli)
     return [(k, b["what"]) for k, b in camp.buckets.items()]
 
 
@@ -270,8 +284,6 @@ def run(pid, tier, seed):
     r2 = adapters.analyse("ab.h", CLEAN_H % (g, g))
     if r.status != "OK" or r.has_error() or r2.status != "OK" or r2.has_error():
         raise core.HarnessError("the clean file contents are not clean: %s %s" % (r.diags, r2.diags))
-    if not ignored([("dir", "b")], "a/b/c.c") or ignored([("dir", "c.c")], "a/b/c.c") or not ignored([("ext", ".c")], "x/y.c"):
-        raise core.HarnessError("gitignore model self-test failed")
     shards, n, real_every = (8, 25, 12) if tier == "quick" else (16, 400, 5)
     camp = core.Campaign()
     for name, rc in core.regress_cases(pid):
@@ -279,6 +291,6 @@ def run(pid, tier, seed):
             camp.fail(k, what, rc["case"])
     camp.merge(core.run_shards(shard, [dict(seed=core.seed_of(seed, s, 15), n=n, real_every=real_every) for s in range(shards)]))
     return core.finish(pid, tier, seed, camp, RULE, t0, replay_fn=replay, assumptions=[
-        "no hidden entries, symlinks or unreadable files; gitignore patterns limited to bare names, 'dir/' and '*.ext'",
+        "no hidden entries, symlinks or unreadable files; 'ignored by git' is decided by the harness's own `git check-ignore -q` call per file",
         "order of verdict lines inside a directory is not constrained",
     ])
